@@ -49,7 +49,7 @@ def expand_group(path, tier):
         if s.startswith('//@harness '):
             kv = dict(a.split('=', 1) for a in s[len('//@harness '):].split())
             harnesses.append(dict(name=kv['name'], props=kv['props'].split(','), kind=kv.get('kind', 'complete'),
-                                  params={}, family=None, group=os.path.basename(path)))
+                                  params={}, family=None, group=os.path.basename(path), target=target))
             out.append(ln)
             continue
         if s.startswith('//@family '):
@@ -59,6 +59,10 @@ def expand_group(path, tier):
             kind = kv.pop('kind', 'family')
             unwind = kv.pop('unwind', None)
             skip = kv.pop('skip', None)
+            lets = []
+            for k in list(kv.keys()):
+                if k.startswith('let.'):
+                    lets.append((k[4:], kv.pop(k)))
             pnames = list(kv.keys())
             spaces = [parse_vals(kv[p], tier) for p in pnames]
             for combo in itertools.product(*spaces):
@@ -66,12 +70,15 @@ def expand_group(path, tier):
                 if skip and eval(skip, {}, dict(env)):
                     continue
                 hname = name + ''.join('_%s%d' % (p, v) for p, v in env.items())
+                for ln_, ex_ in lets:
+                    env[ln_] = int(eval(ex_, {}, dict(env)))
+                combo = tuple(env[k] for k in pnames + [l[0] for l in lets])
                 attrs = '#[kani::proof] '
                 if unwind:
                     attrs += '#[kani::unwind(%d)] ' % int(eval(unwind, {}, dict(env)))
                 out.append('    %sfn %s() { %s::<%s>() }' % (attrs, hname, fn, ', '.join(str(v) for v in combo)))
                 harnesses.append(dict(name=hname, props=props, kind=kind, params=env, family=name,
-                                      group=os.path.basename(path)))
+                                      group=os.path.basename(path), target=target))
             continue
         out.append(ln)
     if not target:
@@ -174,9 +181,11 @@ def run_groups(groups, tier, only_props=None, only_harness=None, jobs=None, time
         cmd = ['cargo', 'kani', '--no-default-features', '--features', 'calc_limit', '-Z', 'function-contracts',
                '-Z', 'stubbing', '--output-format', 'terse', '-j', str(jobs)]
         names = [h['name'] for h in allh]
-        for n in names:
-            cmd += ['--harness', n]
-        info['cmd'] = ' '.join(cmd[:14]) + ' --harness <%d harnesses>' % len(names)
+        cmd.append('--exact')
+        for h in allh:
+            mod = os.path.splitext(os.path.basename(h['target']))[0]
+            cmd += ['--harness', '%s::verif_kani::%s' % (mod, h['name'])]
+        info['cmd'] = ' '.join(cmd[:15]) + ' --harness <%d harnesses>' % len(names)
         try:
             p = subprocess.run(cmd + ['--exact'] if False else cmd, cwd=scratch, env=env, capture_output=True, text=True, timeout=timeout)
         except subprocess.TimeoutExpired:
